@@ -31,6 +31,9 @@ class GenDyn(Gen):
             sp.append(["P", "Q"])
         if rng.random() < 0.3:
             sp.append(["B"])           # a plain base for P
+        self.outer_base = self.nested and rng.random() < 0.5
+        if self.outer_base:
+            sp.append(["R"])           # the nested ItemSpaces P[i].Q[k] replicate R, outside P's tree
         mir = {"sp": [list(p) for p in sp], "cells": {tp(p): {} for p in sp},
                "refs": {tp(p): {} for p in sp}, "grefs": {}, "bases": {tp(p): [] for p in sp},
                "span": {tp(p): 0 for p in sp}, "an": False, "inp": {}, "pf": {}}
@@ -39,7 +42,8 @@ class GenDyn(Gen):
         self.pps = [["p", 0, 0]] + ([["pp", 1, 1]] if two else [])
         mir["pf"][("P",)] = self.new_pf(self.pps, rng.random() < 0.3)
         if self.nested:
-            mir["pf"][("P", "Q")] = self.new_pf([["q", 0, 0]], False)
+            mir["pf"][("P", "Q")] = self.new_pf([["q", 0, 0]], False,
+                                               base=["R"] if self.outer_base else None)
         if ["B"] in sp and rng.random() < 0.7:
             mir["bases"][("P",)] = [["B"]]
         names = ["x", "y", "z", "w"]
@@ -59,7 +63,9 @@ class GenDyn(Gen):
                               ["ce", ["P"], [], "x"], ["sp", ["S"], [], ""]])
             mir["refs"][("P",)]["o"] = {"v": tgt, "mode": rng.choice(["auto", "relative", "absolute"])
                                         if tgt[1][0] == "P" else rng.choice(["auto", "absolute"])}
-        place = {"x": [["P"], ["B"]], "y": [["P"]], "z": [["P", "C"], ["P", "Q"]], "w": [["S"]]}
+        place = {"x": [["P"], ["B"]], "y": [["P"]], "z": [["P", "C"], ["P", "Q"], ["R"]], "w": [["S"]]}
+        if ["R"] in sp:
+            mir["refs"][("R",)]["s"] = {"v": ["int", rng.choice(INT_VALUES), [], ""], "mode": "auto"}
         for nm in names:
             for p in place[nm]:
                 if p in sp and (p != ["B"] or rng.random() < 0.7):
@@ -70,8 +76,10 @@ class GenDyn(Gen):
                                            "cached": rng.random() >= self.p_uncached}
         return self.defs_json()
 
-    def new_pf(self, ps, with_refs):
+    def new_pf(self, ps, with_refs, base=None):
         rec = {"ps": ps, "ops": [], "catch": False, "onerr": 0, "style": "pf"}
+        if base:
+            rec["base"] = base
         if with_refs:
             rec["refs"] = {"u": self.rng.choice([100, 200])}
         return self.new_fid(rec)
@@ -103,6 +111,9 @@ class GenDyn(Gen):
                     ops.append(["read", rng.choice([["g"], ["_model", "P", "r"]])])
                 continue
             lower = [c for c in ("x", "y", "z") if self.rank[c] < rk]
+            if sp == ["R"]:
+                ops.append(["read", rng.choice([["s"], ["q"], ["g"], ["p"], ["_space", "s"]])])
+                continue
             if k < 0.35 and lower:
                 c = rng.choice(lower)
                 args = [["k", 1] if ps and rng.random() < 0.6 else ["c", rng.choice([0, 1])]
@@ -140,6 +151,8 @@ class GenDyn(Gen):
         steps = [["i", "", self.key()]]
         path = ["P"]
         k = rng.random()
+        if getattr(self, "outer_base", False) and k < 0.5:
+            k = 0.4                     # favour the nested instances that replicate R
         if k < 0.3 and ["P", "C"] in self.mir["sp"]:
             steps.append(["c", "C", []])
         elif k < 0.45 and ("P", "Q") in self.mir["pf"] and ["P", "Q"] in self.mir["sp"]:
@@ -152,6 +165,10 @@ class GenDyn(Gen):
         for st in steps:
             if st[0] == "c":
                 p = p + [st[1]]
+            else:
+                f = self.mir["pf"].get(tp(p))
+                if f and self.flib[f].get("base"):
+                    p = list(self.flib[f]["base"])
         return p
 
     def enames_cells(self, p):
@@ -226,6 +243,8 @@ class GenDyn(Gen):
 
     def mk_set_formula(self):
         cells = [(p, c) for p, c in self.all_cells() if self.rng.random() < 0.9 or p == ["S"]]
+        if getattr(self, "outer_base", False) and self.rng.random() < 0.4:
+            cells = [(p, c) for p, c in cells if p == ["R"]] or cells
         if not cells:
             return None
         p, c = self.rng.choice(cells)
@@ -238,7 +257,7 @@ class GenDyn(Gen):
         if k < 0.15:
             return {"op": "set_ref", "s": [], "n": "g", "v": ["int", rng.choice([70, 80, 90]), [], ""],
                     "mode": "auto"}
-        p = rng.choice([q for q in m["sp"] if q[0] in ("P", "B")])
+        p = rng.choice([q for q in m["sp"] if q[0] in ("P", "B", "R")])
         name = rng.choice(["r", "s", "o", "g"])
         if name in self.enames_cells(p) or any(q[:-1] == list(p) and q[-1] == name for q in m["sp"]):
             return None
@@ -267,7 +286,7 @@ class GenDyn(Gen):
 
     def mk_new_cells(self):
         rng = self.rng
-        p = rng.choice([q for q in self.mir["sp"] if q[0] == "P" or q == ["B"]])
+        p = rng.choice([q for q in self.mir["sp"] if q[0] == "P" or q in (["B"], ["R"])])
         free = [n for n in ("x", "y", "z") if n not in self.enames_cells(p)
                 and n not in self.mir["refs"][tp(p)]]
         if not free:
